@@ -822,7 +822,7 @@ def run_kernel(unit):
             if keyt(kin) in ks_:
                 W.fail("key-reuse", case, f"a draw consumes the kernel's input key {keyt(kin)} directly (draws: {draws})", sub=branch + "-input-key")
             for k in ks_:
-                if k in seen_keys:
+                if k in seen_keys and seen_keys[k] != ik:
                     W.fail("key-reuse", case, f"key {k} is also used by the transition with input key #{seen_keys[k]}", sub=branch + "-across-transitions")
                 seen_keys[k] = ik
             res.outcome("keys", kname, branch, "distinct" if len(set(ks_)) == len(ks_) else "shared")
